@@ -37,13 +37,13 @@ theorem fixedDist_size : fixedDistLens.size = 32 := by
   unfold fixedDistLens; simp
 
 /-- What `doStaticHuffman` (first block) does on a fixed block that the spec decodes to `T`. -/
-structure FixedSim (c : Cutter) (out : Bytes) (pE : Nat) (T : Bytes) (r : Cutter × Option Err) : Prop where
+structure FixedSim (k : Nat) (c : Cutter) (out : Bytes) (pE : Nat) (T : Bytes) (r : Cutter × Option Err) : Prop where
   size : r.1.bits.bytes.size = c.bits.bytes.size
   max : r.1.maxEncodedLen = c.maxEncodedLen
-  nil : r.2 = none → r.1.bits.bytes = c.bits.bytes ∧ r.1.bits.pos = pE ∧ r.1.decodedLen = (T.size : Int) ∧
+  nil : r.2 = none → r.1.bits.bytes = c.bits.bytes ∧ r.1.bits.pos = pE ∧ r.1.decodedLen + (k : Int) = (T.size : Int) ∧
       pE ≤ 8 * c.maxEncodedLen ∧ r.1.bits.Inv
   prog : r.2 = some .someProgress → ∃ q o, Reach fixedLit fixedDist 7 5 c.bits.bytes c.bits.pos out q o ∧
-      c.bits.pos < q ∧ r.1.decodedLen = (o.size : Int) ∧ q + 7 ≤ 8 * c.maxEncodedLen ∧
+      c.bits.pos < q ∧ r.1.decodedLen + (k : Int) = (o.size : Int) ∧ q + 7 ≤ 8 * c.maxEncodedLen ∧
       8 * r.1.bits.index - r.1.bits.nBits = q + 7 ∧ r.1.bits.nBits ≤ 8 * r.1.bits.index ∧
       r.1.bits.nBits ≤ 8 ∧ (∃ h : Huffman, h.Good fixedLitLens) ∧
       ∀ i, bitAt r.1.bits.bytes i =
@@ -54,8 +54,9 @@ structure FixedSim (c : Cutter) (out : Bytes) (pE : Nat) (T : Bytes) (r : Cutter
 
 theorem doStaticHuffman_sim (c : Cutter) (hc : c.OK) (fuelS pE : Nat) (out T : Bytes)
     (hspec : huffBlock fixedLit fixedDist 7 5 c.bits.bytes none 0 fuelS c.bits.pos out = .next pE T)
-    (hcd : c.decodedLen = (out.size : Int)) (hT : (T.size : Int) < 2147483648) (isFirst : Bool) :
-    FixedSim c out pE T (c.doStaticHuffman isFirst) := by
+    (k : Nat) (hcd : c.decodedLen + (k : Int) = (out.size : Int)) (hc0 : 0 ≤ c.decodedLen)
+    (hT : (T.size : Int) < 2147483648) (isFirst : Bool) :
+    FixedSim k c out pE T (c.doStaticHuffman isFirst) := by
   obtain ⟨k1, k2, _⟩ := doStaticHuffman_ok c isFirst
   simp only [Cutter.doStaticHuffman] at k1 k2 ⊢
   rw [static_ll, static_dl] at k1 k2 ⊢
@@ -109,7 +110,7 @@ theorem doStaticHuffman_sim (c : Cutter) (hc : c.OK) (fuelS pE : Nat) (out T : B
         have hsim := huffTail_sim _ hc3 fixedLitLens fixedDistLens fixedLit fixedDist ctx 7 5 fuelS pE out T
           (by show huffBlock fixedLit fixedDist 7 5 c.bits.unread.bytes none 0 fuelS c.bits.unread.pos out = .next pE T
               rw [hup]; exact hspec)
-          hcd hT (by simp) (by show 7 = fixedLitLens.getD 256 0; rw [fixedLit_256.2]) isFirst
+          k hcd hc0 hT (by simp) (by show 7 = fixedLitLens.getD 256 0; rw [fixedLit_256.2]) isFirst
         obtain ⟨s1, s2, s3, s4, s5, s6, _⟩ := hsim
         refine ⟨k2, k1, s3, ?_, s5, s6⟩
         intro hp
